@@ -94,6 +94,12 @@ func (it *Interp) takeEpoch(roots []Value) {
 // shared writes), Once runs its function once.
 func (it *Interp) syncOp(name string, args []Value) Value {
 	switch {
+	case it.par != nil && (strings.HasSuffix(name, ").Lock") || strings.HasSuffix(name, ").RLock")):
+		it.parLock(args[0].(*Value))
+		return nil
+	case it.par != nil && (strings.HasSuffix(name, ").Unlock") || strings.HasSuffix(name, ").RUnlock")):
+		it.parUnlock(args[0].(*Value))
+		return nil
 	case strings.HasSuffix(name, ").Lock"), strings.HasSuffix(name, ").RLock"):
 		it.rm.locksHeld++
 		return nil
